@@ -9,7 +9,7 @@ namespace RTA
 open RTA.Spec
 
 namespace AgreeLemmas
-open PruneCoreLemmas PruneFPLemmas
+open PruneCoreLemmas PruneFPLemmas PruneEDFLemmas
 
 theorem maxList_zero (l : List Nat) (h : ∀ x ∈ l, x = 0) : maxList l = 0 := by
   have := maxList_le_of_forall l 0 (fun x hx => by rw [h x hx]; exact Nat.le_refl _)
@@ -31,6 +31,134 @@ theorem search_const_dedicated (A c limit : Nat) (hl : 1 ≤ limit) (hA : A ≤ 
   · intro r' hr'
     have : c ≤ A + r' := hr'
     omega
+
+/-- `naiveMax` of per-offset results that are all `ok` and bounded -/
+theorem naiveMax_bounded (f : Nat → Res) (L R : Nat) (h : ∀ A, A < L → ∃ v, f A = .ok v ∧ v ≤ R) :
+    ∃ Ri, naiveMax ((List.range L).map f) = .ok Ri ∧ Ri ≤ R ∧
+      ∀ A, A < L → ∀ v, f A = .ok v → v ≤ Ri := by
+  let g : Nat → Nat := fun A => match f A with | .ok v => v | _ => 0
+  have hfg : ∀ A, A < L → f A = .ok (g A) := by
+    intro A hA
+    obtain ⟨v, hv, _⟩ := h A hA
+    show f A = .ok (match f A with | .ok v => v | _ => 0)
+    rw [hv]
+  have e : (List.range L).map f = (List.range L).map fun A => Res.ok (g A) :=
+    List.map_congr_left (fun a ha => hfg a (List.mem_range.1 ha))
+  refine ⟨maxList ((List.range L).map g), ?_, ?_, ?_⟩
+  · rw [e, naiveMax_ok]
+  · apply maxList_le_of_forall
+    intro x hx
+    obtain ⟨A, hA, rfl⟩ := List.mem_map.1 hx
+    obtain ⟨v, hv, hle⟩ := h A (List.mem_range.1 hA)
+    have := hfg A (List.mem_range.1 hA)
+    rw [hv] at this
+    injection this with this
+    omega
+  · intro A hA v hv
+    have := hfg A hA
+    rw [hv] at this
+    injection this with this
+    rw [this]
+    exact mem_le_maxList _ _ (List.mem_map.2 ⟨A, List.mem_range.2 hA, rfl⟩)
+
+/-- the per-offset NP-EDF bound, when there is no blocking and all deadlines are equal,
+never exceeds the FIFO term (or `rem`) -/
+theorem edfPer_le_fifo (tua : RB) (D : Nat) (others : List EdfTask) (rem limit L R : Nat)
+    (O : Nat → Nat) (hO : MonoN O) (hown : MonoN tua.need)
+    (hB : ∀ A, edfBlocking others D A = 0)
+    (hH : ∀ A AF, edfHepWorkload others D A AF = O (min AF (A + 1)))
+    (hL : naiveSolve (fun x => O x + tua.need x) limit = .ok L)
+    (hrem : rem < tua.need 1) (A : Nat) (hA : A < L)
+    (hR1 : O (A + 1) + tua.need (A + 1) - A ≤ R) (hR2 : rem ≤ R) :
+    ∃ v, edfPer tua D others rem true limit A = .ok v ∧ v ≤ R := by
+  have hLs := (naiveSolve_ok_iff _ _ _).1 hL
+  have h1 := hown 1 (A + 1) (by omega)
+  have hT : O (A + 1) + tua.need (A + 1) ≤ L := by
+    have a := hO (A + 1) (max L 1) (by omega)
+    have b := hown (A + 1) (max L 1) (by omega)
+    have c := hLs.2.1
+    replace c : O (max L 1) + tua.need (max L 1) ≤ L := c
+    omega
+  have hrhs : ∀ x, edfRhs tua D others rem true A x ≤ O (A + 1) + tua.need (A + 1) - rem := by
+    intro x
+    unfold edfRhs
+    rw [hH, if_pos rfl, hB]
+    have := hO (min x (A + 1)) (A + 1) (Nat.min_le_right _ _)
+    omega
+  unfold edfPer
+  rcases naiveSolve_cases (edfRhs tua D others rem true A) limit with ⟨AF, h⟩ | h
+  · rw [h]
+    refine ⟨_, rfl, ?_⟩
+    have hs := (naiveSolve_ok_iff _ _ _).1 h
+    -- `AF` is at most the trivial solution
+    have hAF : AF ≤ O (A + 1) + tua.need (A + 1) - rem := by
+      rcases Nat.lt_or_ge (O (A + 1) + tua.need (A + 1) - rem) AF with hlt | hge
+      · exact absurd (Nat.le_trans (hrhs _) (by omega)) (hs.2.2 _ hlt)
+      · exact hge
+    omega
+  · rw [naiveSolve_div_iff] at h
+    exact absurd (Nat.le_trans (hrhs _) (Nat.le_refl _))
+      (h (O (A + 1) + tua.need (A + 1) - rem) (by omega))
+
+/-- at an increase offset of the task under analysis the per-offset NP-EDF bound is
+exactly the FIFO term -/
+theorem edfPer_eq_fifo (tua : RB) (D : Nat) (others : List EdfTask) (rem limit L : Nat)
+    (O : Nat → Nat) (hO : MonoN O) (hown : MonoN tua.need)
+    (hB : ∀ A, edfBlocking others D A = 0)
+    (hH : ∀ A AF, edfHepWorkload others D A AF = O (min AF (A + 1)))
+    (hL : naiveSolve (fun x => O x + tua.need x) limit = .ok L)
+    (A : Nat) (hA : A < L) (hinc : tua.need A + rem < tua.need (A + 1))
+    (hbig : A + rem < O (A + 1) + tua.need (A + 1)) :
+    edfPer tua D others rem true limit A = .ok (O (A + 1) + tua.need (A + 1) - A) := by
+  have hLs := (naiveSolve_ok_iff _ _ _).1 hL
+  have hT : O (A + 1) + tua.need (A + 1) ≤ L := by
+    have a := hO (A + 1) (max L 1) (by omega)
+    have b := hown (A + 1) (max L 1) (by omega)
+    have c := hLs.2.1
+    replace c : O (max L 1) + tua.need (max L 1) ≤ L := c
+    omega
+  have hrhs : ∀ x, edfRhs tua D others rem true A x =
+      (tua.need (A + 1) - rem) + O (min x (A + 1)) := by
+    intro x
+    unfold edfRhs
+    rw [hH, if_pos rfl, hB]
+    omega
+  have hsol : naiveSolve (edfRhs tua D others rem true A) limit =
+      .ok (O (A + 1) + tua.need (A + 1) - rem) := by
+    rw [naiveSolve_ok_iff]
+    refine ⟨by omega, ?_, ?_⟩
+    · rw [hrhs, Nat.max_eq_left (by omega), Nat.min_eq_right (by omega)]
+      omega
+    · intro x hx
+      rw [hrhs]
+      rcases Nat.lt_or_ge A (max x 1) with h | h
+      · rw [Nat.min_eq_right (by omega)]; omega
+      · rw [Nat.min_eq_left (by omega)]
+        have hb := naiveSolve_below _ limit L hL (max x 1) (by omega) (by omega)
+        replace hb : max x 1 < O (max x 1) + tua.need (max x 1) := hb
+        have := hown (max x 1) A h
+        omega
+  unfold edfPer
+  rw [hsol]
+  simp only []
+  congr 1
+  omega
+
+/-- `maxList` of a non-empty list is attained -/
+theorem maxList_attained (l : List Nat) (h : l ≠ []) : maxList l ∈ l := by
+  induction l with
+  | nil => exact absurd rfl h
+  | cons a as ih =>
+    simp only [maxList]
+    rcases Nat.le_total (maxList as) a with h1 | h1
+    · rw [Nat.max_eq_left h1]; simp
+    · rw [Nat.max_eq_right h1]
+      cases as with
+      | nil =>
+        simp only [maxList] at h1 ⊢
+        have : a = 0 := by omega
+        simp [this]
+      | cons b bs => exact List.mem_cons_of_mem _ (ih (by simp))
 
 end AgreeLemmas
 open AgreeLemmas PruneCoreLemmas PruneFPLemmas
@@ -218,6 +346,213 @@ def npEdfOthers (ts : List (Arr × Nat)) (D i : Nat) : List EdfTask :=
 
 def fifoOfTasks (ts : List (Arr × Nat)) : RB := .agg (ts.map fun p => .rbf p.1 (.scalar p.2))
 
+namespace AgreeLemmas
+open PruneEDFLemmas
+
+/-- the request bound of a task given as an (arrival model, WCET) pair -/
+def rbOf (p : Arr × Nat) : RB := .rbf p.1 (.scalar p.2)
+
+theorem others_rb (ts : List (Arr × Nat)) (D i : Nat) :
+    (npEdfOthers ts D i).map (·.rb) = (ts.eraseIdx i).map rbOf := by
+  unfold npEdfOthers
+  rw [List.map_map]
+  rfl
+
+theorem fifoOfTasks_cons (p : Arr × Nat) (ps : List (Arr × Nat)) (x : Nat) :
+    (fifoOfTasks (p :: ps)).need x = (rbOf p).need x + (fifoOfTasks ps).need x := by
+  simp only [fifoOfTasks, RB.need, RB.needList, List.map_cons, rbOf]
+
+theorem sumNeed_cons (r : RB) (rs : List RB) (x : Nat) :
+    sumNeed (r :: rs) x = r.need x + sumNeed rs x := by
+  simp only [sumNeed, List.map_cons, sumList]
+
+theorem fifoOfTasks_need (ts : List (Arr × Nat)) (x : Nat) :
+    (fifoOfTasks ts).need x = sumNeed (ts.map rbOf) x := by
+  induction ts with
+  | nil => simp [fifoOfTasks, RB.need, RB.needList, sumNeed, sumList]
+  | cons p ps ih => rw [fifoOfTasks_cons, ih, List.map_cons, sumNeed_cons]
+
+/-- the total demand is the demand of task `i` plus that of the others -/
+theorem total_split (ts : List (Arr × Nat)) (x : Nat) (i : Nat) (hi : i < ts.length) :
+    (fifoOfTasks ts).need x =
+      sumNeed ((ts.eraseIdx i).map rbOf) x + (rbOf (ts.getD i default)).need x := by
+  induction ts generalizing i with
+  | nil => simp at hi
+  | cons p ps ih =>
+    cases i with
+    | zero =>
+      rw [fifoOfTasks_cons, fifoOfTasks_need]
+      simp only [List.eraseIdx_cons_zero, List.getD_cons_zero]
+      omega
+    | succ j =>
+      rw [fifoOfTasks_cons, ih j (by simpa using hi)]
+      simp only [List.eraseIdx_cons_succ, List.getD_cons_succ, List.map_cons, sumNeed_cons]
+      omega
+
+theorem getD_mem (ts : List (Arr × Nat)) (i : Nat) (hi : i < ts.length) :
+    ts.getD i default ∈ ts := by
+  induction ts generalizing i with
+  | nil => simp at hi
+  | cons p ps ih =>
+    cases i with
+    | zero => simp
+    | succ j =>
+      simp only [List.getD_cons_succ]
+      exact List.mem_cons_of_mem _ (ih j (by simpa using hi))
+
+/-- an increase of the total demand is an increase of the demand of some task -/
+theorem exists_inc (ts : List (Arr × Nat)) (A : Nat)
+    (h : (fifoOfTasks ts).need A < (fifoOfTasks ts).need (A + 1)) :
+    ∃ i, i < ts.length ∧ (rbOf (ts.getD i default)).need A < (rbOf (ts.getD i default)).need (A + 1) := by
+  induction ts with
+  | nil => simp [fifoOfTasks, RB.need, RB.needList] at h
+  | cons p ps ih =>
+    rw [fifoOfTasks_cons, fifoOfTasks_cons] at h
+    by_cases hp : (rbOf p).need A < (rbOf p).need (A + 1)
+    · exact ⟨0, by simp, by simpa using hp⟩
+    · obtain ⟨i, hi, hinc⟩ := ih (by omega)
+      exact ⟨i + 1, by simpa using hi, by simpa using hinc⟩
+
+theorem rbOf_ok (p : Arr × Nat) (h : p.1.WF ∧ p.1.Exact ∧ 1 ≤ p.2 ∧ 0 < p.1.N 1) :
+    (rbOf p).ArrWF ∧ (rbOf p).Exact ∧ p.2 - 1 < (rbOf p).need 1 ∧
+      ∀ A, (rbOf p).need A < (rbOf p).need (A + 1) →
+        (rbOf p).need A + (p.2 - 1) < (rbOf p).need (A + 1) := by
+  obtain ⟨h1, h2, h3, h4⟩ := scalar_facts p.1 p.2 (p.2 - 1) h.1 h.2.1 h.2.2.1 (by omega) h.2.2.2
+  refine ⟨h1, h2, ?_, h4⟩
+  have := h4 0 (by rw [RB.need_zero]; exact h3)
+  rw [RB.need_zero] at this
+  show p.2 - 1 < (RB.rbf p.1 (.scalar p.2)).need (0 + 1)
+  omega
+
+theorem fifoOfTasks_ok (ts : List (Arr × Nat))
+    (hwf : ∀ p ∈ ts, p.1.WF ∧ p.1.Exact ∧ 1 ≤ p.2 ∧ 0 < p.1.N 1) :
+    (fifoOfTasks ts).ArrWF ∧ (fifoOfTasks ts).Exact := by
+  unfold fifoOfTasks
+  simp only [RB.ArrWF, RB.Exact]
+  induction ts with
+  | nil => simp [RB.ArrWFList, RB.ExactList]
+  | cons p ps ih =>
+    obtain ⟨h1, h2, _, _⟩ := rbOf_ok p (hwf p (by simp))
+    obtain ⟨i1, i2⟩ := ih (fun q hq => hwf q (by simp [hq]))
+    simp only [List.map_cons, RB.ArrWFList, RB.ExactList]
+    exact ⟨⟨h1, i1⟩, ⟨h2, i2⟩⟩
+
+theorem mem_npEdfOthers (ts : List (Arr × Nat)) (D i : Nat) (o : EdfTask)
+    (ho : o ∈ npEdfOthers ts D i) : ∃ p ∈ ts, o.rb = rbOf p ∧ o.D = D := by
+  unfold npEdfOthers at ho
+  obtain ⟨p, hp, rfl⟩ := List.mem_map.1 ho
+  exact ⟨p, List.mem_of_mem_eraseIdx hp, rfl, rfl⟩
+
+theorem others_ok (ts : List (Arr × Nat)) (D i : Nat)
+    (hwf : ∀ p ∈ ts, p.1.WF ∧ p.1.Exact ∧ 1 ≤ p.2 ∧ 0 < p.1.N 1) :
+    EdfOthersOK (npEdfOthers ts D i) := by
+  intro o ho
+  obtain ⟨p, hp, e, _⟩ := mem_npEdfOthers ts D i o ho
+  rw [e]
+  exact ⟨(rbOf_ok p (hwf p hp)).1, (rbOf_ok p (hwf p hp)).2.1⟩
+
+theorem blocking0 (ts : List (Arr × Nat)) (D i A : Nat) :
+    edfBlocking (npEdfOthers ts D i) D A = 0 := by
+  unfold edfBlocking
+  have : (npEdfOthers ts D i).filter
+      (fun o => decide (o.D > D + A) && decide (o.rb.need 1 > 0)) = [] := by
+    rw [List.filter_eq_nil_iff]
+    intro o ho
+    obtain ⟨p, _, _, e⟩ := mem_npEdfOthers ts D i o ho
+    simp only [Bool.and_eq_true, decide_eq_true_eq]
+    omega
+  rw [this]
+  rfl
+
+theorem hep_eq (ts : List (Arr × Nat)) (D i A AF : Nat) :
+    edfHepWorkload (npEdfOthers ts D i) D A AF =
+      sumNeed ((npEdfOthers ts D i).map (·.rb)) (min AF (A + 1)) := by
+  unfold edfHepWorkload sumNeed
+  rw [List.map_map]
+  congr 1
+  apply List.map_congr_left
+  intro o ho
+  obtain ⟨p, _, _, e⟩ := mem_npEdfOthers ts D i o ho
+  show o.rb.need (min AF (A + 1 + D - o.D)) = o.rb.need (min AF (A + 1))
+  rw [e]
+  congr 2
+  omega
+
+/-- everything about the NP-EDF analysis of task `i` in terms of the FIFO quantities -/
+theorem npEdf_task (ts : List (Arr × Nat)) (D limit L R : Nat)
+    (hwf : ∀ p ∈ ts, p.1.WF ∧ p.1.Exact ∧ 1 ≤ p.2 ∧ 0 < p.1.N 1) (hl : 1 ≤ limit)
+    (hL : naiveSolve (fun x => (fifoOfTasks ts).need x) limit = .ok L)
+    (hR : ∀ A, A < L → (fifoOfTasks ts).need (A + 1) - A ≤ R)
+    (i : Nat) (hi : i < ts.length) :
+    ∃ Ri, edfNonpreemptive (ts.getD i default).1 (ts.getD i default).2 D
+        (npEdfOthers ts D i) limit = .ok Ri ∧ Ri ≤ R ∧
+      ∀ A, A < L → (rbOf (ts.getD i default)).need A < (rbOf (ts.getD i default)).need (A + 1) →
+        (fifoOfTasks ts).need (A + 1) - A ≤ Ri := by
+  have hp := hwf _ (getD_mem ts i hi)
+  obtain ⟨hwfi, hexi, hremi, hstepi⟩ := rbOf_ok _ hp
+  have ho := others_ok ts D i hwf
+  have hown := RB.need_mono _ hwfi hexi
+  have hO : MonoN (sumNeed ((npEdfOthers ts D i).map (·.rb))) := by
+    have := busy_mono (RB.rbf .never (.scalar 1)) (npEdfOthers ts D i)
+      (by simp [RB.ArrWF, Arr.WF]) (by
+        simp only [RB.Exact, Arr.Exact, true_and]
+        exact Cost.scalar_strictPos 1 (by omega)) ho
+    intro a b hab
+    have h := this a b hab
+    simp only [RB.need, Arr.N, Cost.ofJobs] at h
+    omega
+  have hsplit : ∀ x, (fifoOfTasks ts).need x =
+      sumNeed ((npEdfOthers ts D i).map (·.rb)) x + (rbOf (ts.getD i default)).need x := by
+    intro x; rw [others_rb]; exact total_split ts x i hi
+  have hLi : naiveSolve (fun x => sumNeed ((npEdfOthers ts D i).map (·.rb)) x +
+      (rbOf (ts.getD i default)).need x) limit = .ok L := by
+    rw [← hL]; congr 1; funext x; exact (hsplit x).symm
+  have hLs := (naiveSolve_ok_iff _ _ _).1 hL
+  have hLpos : 0 < L := by
+    rcases Nat.eq_zero_or_pos L with h0 | h
+    · subst h0
+      have c : (fifoOfTasks ts).need (max 0 1) ≤ 0 := hLs.2.1
+      have : max 0 1 = 1 := rfl
+      rw [this, hsplit 1] at c
+      omega
+    · exact h
+  have hR2 : (ts.getD i default).2 - 1 ≤ R := by
+    have := hR 0 hLpos
+    rw [hsplit 1] at this
+    omega
+  have hper : ∀ A, A < L → ∃ v, edfPer (rbOf (ts.getD i default)) D (npEdfOthers ts D i)
+      ((ts.getD i default).2 - 1) true limit A = .ok v ∧ v ≤ R := by
+    intro A hA
+    apply edfPer_le_fifo _ D _ _ limit L R _ hO hown (blocking0 ts D i) (hep_eq ts D i) hLi hremi A hA
+      _ hR2
+    rw [← hsplit]; exact hR A hA
+  obtain ⟨Ri, hRi, hle, hge⟩ := naiveMax_bounded _ L R hper
+  refine ⟨Ri, ?_, hle, ?_⟩
+  · rw [edfNonpreemptive_eq_naive _ _ D _ limit hp.1 hp.2.1 hp.2.2.1 ho hl hp.2.2.2, naiveEdf_eq]
+    show (match naiveSolve (fun x => sumNeed ((npEdfOthers ts D i).map (·.rb)) x +
+      (rbOf (ts.getD i default)).need x) limit with
+      | .ok L => naiveMax ((List.range L).map (edfPer (rbOf (ts.getD i default)) D
+          (npEdfOthers ts D i) ((ts.getD i default).2 - 1) true limit))
+      | e => e) = _
+    rw [hLi]
+    exact hRi
+  · intro A hA hinc
+    have hinc' := hstepi A hinc
+    apply hge A hA
+    rw [hsplit (A + 1)]
+    apply edfPer_eq_fifo _ D _ _ limit L _ hO hown (blocking0 ts D i) (hep_eq ts D i) hLi A hA hinc'
+    rcases Nat.eq_zero_or_pos A with h0 | hpos
+    · subst h0
+      omega
+    · have hb := naiveSolve_below _ limit L hLi A hpos hA
+      replace hb : A < sumNeed ((npEdfOthers ts D i).map (·.rb)) A +
+        (rbOf (ts.getD i default)).need A := hb
+      have := hO A (A + 1) (by omega)
+      omega
+
+end AgreeLemmas
+open AgreeLemmas
+
 /-- with equal relative deadlines the largest non-preemptive-EDF bound over all tasks
 equals the FIFO bound (when the FIFO analysis converges) -/
 theorem max_npEdf_eq_fifo (ts : List (Arr × Nat)) (D limit R : Nat)
@@ -227,6 +562,60 @@ theorem max_npEdf_eq_fifo (ts : List (Arr × Nat)) (D limit R : Nat)
         (npEdfOthers ts D i) limit = .ok Ri ∧ Ri ≤ R) ∧
     (ts ≠ [] → ∃ i, i < ts.length ∧ edfNonpreemptive (ts.getD i default).1 (ts.getD i default).2 D
         (npEdfOthers ts D i) limit = .ok R) := by
-  sorry
+  obtain ⟨hwfT, hexT⟩ := fifoOfTasks_ok ts hwf
+  have hRn := hR
+  rw [fifo_eq_naive _ hwfT hexT limit hl] at hRn
+  unfold naiveFifo at hRn
+  rcases naiveSolve_cases (fun L => (fifoOfTasks ts).need L) limit with ⟨L, hL⟩ | hd
+  · rw [hL] at hRn
+    injection hRn with hRn
+    have hRall : ∀ A, A < L → (fifoOfTasks ts).need (A + 1) - A ≤ R := by
+      intro A hA
+      rw [← hRn]
+      exact mem_le_maxList _ _ (List.mem_map.2 ⟨A, List.mem_range.2 hA, rfl⟩)
+    refine ⟨?_, ?_⟩
+    · intro i hi
+      obtain ⟨Ri, h1, h2, _⟩ := npEdf_task ts D limit L R hwf hl hL hRall i hi
+      exact ⟨Ri, h1, h2⟩
+    · intro hne
+      obtain ⟨S, hmS, hf⟩ := fifo_form _ hwfT hexT limit hl L hL
+      rw [hf] at hR
+      injection hR with hR
+      -- `0` is an increase offset below `L`
+      have hlen : 0 < ts.length := by
+        cases ts with
+        | nil => exact absurd rfl hne
+        | cons p ps => simp
+      have hLs := (naiveSolve_ok_iff _ _ _).1 hL
+      have hpos1 : 0 < (fifoOfTasks ts).need 1 := by
+        have := (rbOf_ok _ (hwf _ (getD_mem ts 0 hlen))).2.2.1
+        rw [total_split ts 1 0 hlen]
+        omega
+      have hLpos : 0 < L := by
+        rcases Nat.eq_zero_or_pos L with h0 | h
+        · subst h0
+          have c : (fifoOfTasks ts).need (max 0 1) ≤ 0 := hLs.2.1
+          have : max 0 1 = 1 := rfl
+          rw [this] at c
+          omega
+        · exact h
+      have h0S : 0 ∈ S := (hmS 0).2 ⟨hLpos, by rw [RB.need_zero]; exact hpos1⟩
+      have hne' : S.map (fun A => (fifoOfTasks ts).need (A + 1) - A) ≠ [] := by
+        intro h
+        rw [List.map_eq_nil_iff] at h
+        rw [h] at h0S
+        cases h0S
+      have hatt := maxList_attained _ hne'
+      rw [hR] at hatt
+      obtain ⟨A, hAS, hAR⟩ := List.mem_map.1 hatt
+      have hA := (hmS A).1 hAS
+      obtain ⟨i, hi, hinc⟩ := exists_inc ts A hA.2
+      obtain ⟨Ri, h1, h2, h3⟩ := npEdf_task ts D limit L R hwf hl hL hRall i hi
+      have := h3 A hA.1 hinc
+      have : Ri = R := by omega
+      subst this
+      exact ⟨i, hi, h1⟩
+  · rw [hd] at hRn
+    cases hRn
 
 end RTA
